@@ -182,6 +182,24 @@ def family_event(i, kind, variants, roles, probes):
     import valida.datapath as dp
 
     objs, terms, sigs = [], [], []
+    # in half of the families the variants SHARE the condition objects of the slots a mutation left alone (one recipe
+    # object builds one condition object): equality must not depend on whether two parts hold one object or two equal ones
+    gen.MEMO[0] = {} if (kind in ("part", "path", "rule", "schema") and zlib_coin(variants)) else None
+    try:
+        return _family_event(i, kind, variants, roles, probes, objs, terms, sigs)
+    finally:
+        gen.MEMO[0] = None
+
+
+def zlib_coin(x):
+    import zlib
+    return zlib.crc32(repr(x).encode()) % 2 == 0
+
+
+def _family_event(i, kind, variants, roles, probes, objs, terms, sigs):
+    import valida
+    import valida.datapath as dp
+
     for v in variants:
         if kind == "cond":
             o = ruledrv.build_cond(v)
